@@ -49,7 +49,7 @@ Do(e) ==
   \/ e.op = "InitRD" /\ InitRD
   \/ e.op = "SetGV" /\ SetGV
   \/ e.op = "SetForces" /\ SetForces(e.keep)
-  \/ e.op = "ProduceFC" /\ ProduceFC(e.lay)
+  \/ e.op = "ProduceFC" /\ ProduceFC(e.lay, e.chg)
   \/ e.op = "GetSCD" /\ GetSCD
   \/ e.op = "Copy" /\ Copy(e.via)
   \/ e.op = "Get" /\ Get(e.cls)
